@@ -181,7 +181,7 @@ def explore(ctx):
             except geom.NearHalf:
                 ctx.klass("float_guard_rejected")
                 continue
-            got = geom.recorded_to_segments(geom.drawn_segments(gs[name]), snap_eps=(Fr(1, 10) if tol < Fr(1, 2) else None))
+            got = geom.recorded_to_segments(geom.drawn_segments(gs[name]), snap_eps=(Fr(1, 2) if tol < Fr(1, 2) else None))
             if degenerate(ref):
                 ctx.klass("degenerate_zero_length_skipped")
                 continue
@@ -193,7 +193,9 @@ def explore(ctx):
                 # unrounded coordinates are stored as fixed-point deltas (and cffsubr's tx re-encodes them with
                 # two decimals), which accumulates along a contour: the statement's "moved by no more than the
                 # tolerance" is checked with 0.1 unit of encoding slack
-                if not approx_same(exact, got, tol + Fr(1, 10)):
+                npts = sum(len(flat(sgm)[1]) for sgm in exact)
+                # each delta is re-encoded with <= 0.005 error and the errors add up along the whole charstring
+                if not approx_same(exact, got, tol + Fr(1, 10) + Fr(npts, 150)):
                     ctx.spec_failure(dict(case, glyph=name), "compiled outline of %r moved by more than roundTolerance %s from the "
                                      "resolved source outline" % (name, tol))
             elif [geom.cyc_canon(s) for s in ref] != [geom.cyc_canon(s) for s in got]:
